@@ -220,8 +220,12 @@ def observe(case, en):
         except Exception as e:
             t.update(empty, ret=0, exception=f"{type(e).__name__}: {e}")
         traces.append(t)
-        if t["ret"] and len(calls) >= 2:
-            tried = calls[:-1]
+        if t["ret"] and len(calls) >= 1:
+            # the tries: every layout call, except a last call that repeats an earlier spring constant (the code on the
+            # pinned tree recomputes the winner on the caller's die; an implementation that keeps the winning layout
+            # instead makes no such call -- benign change B09/3 -- and then every call is a try)
+            ks = [k for (k, _c, _l) in calls]
+            tried = calls[:-1] if ks[-1] in ks[:-1] else calls
             fin_c = [c for (_k, c, _l) in tried if isinstance(c, float) and math.isfinite(c)]
             mx = max([abs(c) for c in fin_c] + [0.0])
             sc = 1e8 / mx if mx > 0 else 1.0
